@@ -44,6 +44,8 @@ pub fn all_repeats() -> Vec<Unary> {
             v.push(Unary::Rep(lo, hi, m));
         }
     }
+    // `X{0}`: matches the empty string, groups inside never participate
+    v.push(Unary::Rep(0, Some(0), Mode::Greedy));
     v
 }
 
@@ -456,6 +458,14 @@ pub fn contexts() -> Vec<Context> {
         ("(?:(?>□))*x", cat(vec![star(atomic(h0())), x()])),
         ("(?:(?=□)a)*", star(cat(vec![la(h0()), x()]))),
         ("(?:□|x(?=))+y", cat(vec![plus(alt(vec![h0(), cat(vec![x(), e()])])), y()])),
+        // counted repeats with a hard body as the last element of an atomic construct: a failing
+        // required iteration must backtrack into the previous one
+        ("(?>(?:(?=)□){2})", atomic(rep2(cat(vec![e(), h0()])))),
+        ("(?>(?:(?=)□){2})□'", cat(vec![atomic(rep2(cat(vec![e(), h0()]))), h1()])),
+        ("(?=(?:(?=)□){2})□'", cat(vec![la(rep2(cat(vec![e(), h0()]))), h1()])),
+        ("(?!(?:□(?=)){2})□'", cat(vec![nla(rep2(cat(vec![h0(), e()]))), h1()])),
+        ("(?:(?=)□){2}+□'", cat(vec![rep(cat(vec![e(), h0()]), 2, Some(2), Mode::Possessive), h1()])),
+        ("(?>(?:(?!x)□){2,})□'", cat(vec![atomic(rep(cat(vec![nla(x()), h0()]), 2, None, Mode::Greedy)), h1()])),
         // atomic / possessive
         ("(?>□)", atomic(h0())),
         ("(?>□)□'", cat(vec![atomic(h0()), h1()])),
@@ -501,6 +511,14 @@ pub fn contexts() -> Vec<Context> {
         ("(?((?(□)a))b|a)", cond(cond(h0(), x(), Node::Empty), y(), x())),
         ("(?:(?(□)a|b))*c", cat(vec![star(cond(h0(), x(), y())), lit("c")])),
         ("(?(□)(?:a|b))", cond(h0(), alt(vec![x(), y()]), Node::Empty)),
+        // conditionals that need backtracking into the group they test
+        ("(?:(□)|□')(?(1)a|b)", cat(vec![alt(vec![grp(h0()), h1()]), condg(1, x(), y())])),
+        ("(?:(□)|.)*(?(1)a|b)", cat(vec![star(alt(vec![grp(h0()), Node::Dot])), condg(1, x(), y())])),
+        ("((□)|□')(?(2)a|b)", cat(vec![grp(alt(vec![grp(h0()), h1()])), condg(2, x(), y())])),
+        // conditionals inside look-arounds / atomic groups, false path taken, later failure
+        ("(é)?(?=(□)(?(1)a|))\\2□'", cat(vec![opt(grp(lit("é"))), la(cat(vec![grp(h0()), condg(1, x(), Node::Empty)])), Node::Backref(2), h1()])),
+        ("(é)?(?>(□)(?=(?(1)a|)))□'", cat(vec![opt(grp(lit("é"))), atomic(cat(vec![grp(h0()), la(condg(1, x(), Node::Empty))])), h1()])),
+        ("(é)?(?((?=(?(1)a|b)))□|□')", cat(vec![opt(grp(lit("é"))), cond(la(condg(1, x(), y())), h0(), h1())])),
         // \K, \G, word boundary
         ("□\\K□'", cat(vec![h0(), Node::KeepOut, h1()])),
         ("(?<=x\\K)□", cat(vec![lb(cat(vec![x(), Node::KeepOut])), h0()])),
